@@ -381,7 +381,7 @@ def replace_everywhere(ws, old, new, skip_file=None):
 OPERATORS = ["rename_module", "rename_type", "add_component", "remove_component", "add_proc",
              "remove_proc", "toggle_private", "retarget_extends", "change_use", "move_type",
              "create_file", "delete_file", "rename_var", "toggle_long_line", "edit_macro",
-             "rename_file", "change_include"]
+             "rename_file", "change_include", "reorder"]
 
 
 def apply_operator(rng, ws, op=None):
@@ -575,6 +575,23 @@ def apply_operator(rng, ws, op=None):
         else:
             u["macros"].insert(0, [f"{u['name'].upper()}_N{uid(ws)}", "1"])
         return {"op": op, "macros": copy.deepcopy(u["macros"])}
+    if op == "reorder":
+        # same bytes in another order: the file keeps its size while every line number moves
+        cands = []
+        for f in mods:
+            u = ws["files"][f]
+            for key in ("procs", "vars", "types"):
+                if len(u[key]) >= 2:
+                    cands.append((f, u[key], key))
+            for t in u["types"]:
+                if len(t["comps"]) >= 2:
+                    cands.append((f, t["comps"], "comps"))
+        if not cands:
+            return None
+        f, seq, key = rng.choice(cands)
+        i, j = rng.sample(range(len(seq)), 2)
+        seq[i], seq[j] = seq[j], seq[i]
+        return {"op": op, "file": f, "what": key}
     if op == "change_include":
         progs = sorted(n for n, u in ws["files"].items() if u["kind"] == "program")
         incs = sorted(n for n, u in ws["files"].items() if u["kind"] == "include")
